@@ -38,6 +38,7 @@ type vectorFile struct {
 	Label    string `json:"label"`
 	Detail   string `json:"detail"`
 	Vector   []any  `json:"vector"`
+	Lenient  bool   `json:"lenient,omitempty"` // replay stops quietly when the vector runs out
 }
 
 type replayOut struct {
@@ -147,9 +148,11 @@ func main() {
 				// those of the first pass must be carried over
 				if old.Paths > s.Paths {
 					old.Violations = append(old.Violations, s.Violations...)
+					old.Fallbacks = append(old.Fallbacks, s.Fallbacks...)
 					continue // keep the larger exploration
 				}
 				s.Violations = append(s.Violations, old.Violations...)
+				s.Fallbacks = append(s.Fallbacks, old.Fallbacks...)
 			}
 			sums[h] = s
 			fmt.Printf("harness %s: paths=%d ends=%v asserts=%d queries=%d (sat %d unsat %d unknown %d) solver=%.1fs wall=%.1fs truncated=%v\n",
@@ -219,6 +222,71 @@ func main() {
 			f := filepath.Join(rdir, fmt.Sprintf("%s-%x.json", h, sum[:5]))
 			os.WriteFile(f, b, 0o644)
 			cands = append(cands, cand{f, vf})
+		}
+	}
+
+	// ---- concolic fallback: paths the engine could not continue ----
+	// A sample of them is replayed natively on inputs satisfying the path
+	// condition up to that point; whatever assertion fails there is a
+	// violation confirmed on the real build (found by a sample, which the
+	// evidence says).
+	nFallback, nFallbackFailed := 0, 0
+	if !*noReplay {
+		var ffiles []string
+		fmeta := map[string]vectorFile{}
+		for _, h := range harnesses {
+			s := sums[h]
+			if s == nil {
+				continue
+			}
+			for i, v := range s.Fallbacks {
+				if i >= 64 {
+					break
+				}
+				vf := vectorFile{Property: prop, Harness: h, Tier: *tier, Label: v.Label, Detail: v.Detail, Vector: v.Vector, Lenient: true}
+				b, _ := json.MarshalIndent(vf, "", " ")
+				sum := sha1.Sum(b)
+				f := filepath.Join(rdir, fmt.Sprintf("%s-fb-%x.json", h, sum[:5]))
+				os.WriteFile(f, b, 0o644)
+				ffiles = append(ffiles, f)
+				fmeta[f] = vf
+			}
+		}
+		if len(ffiles) > 0 {
+			outs, rerr := replay(hdir, ffiles)
+			if rerr != "" {
+				notes = append(notes, "fallback replay: "+rerr)
+			}
+			seenLab := map[string]bool{}
+			for _, o := range outs {
+				nFallback++
+				vf := fmeta[o.File]
+				labs := append([]string(nil), o.Labels...)
+				if o.Panic != "" && !strings.HasPrefix(o.Panic, "nd: ") {
+					labs = append(labs, "panic")
+				}
+				keep := false
+				for _, l := range labs {
+					k := vf.Harness + "|" + l
+					if seenLab[k] {
+						continue
+					}
+					seenLab[k] = true
+					nFallbackFailed++
+					keep = true
+					nvf := vf
+					nvf.Label = l
+					nvf.Detail = "found by native replay of a path the engine could not continue (" + vf.Detail + ")"
+					b, _ := json.MarshalIndent(nvf, "", " ")
+					os.WriteFile(o.File, b, 0o644)
+					cands = append(cands, cand{o.File, nvf})
+				}
+				if !keep {
+					os.Remove(o.File)
+				}
+			}
+			notes = append(notes, fmt.Sprintf("concolic fallback: %d sampled unsupported paths replayed natively, %d assertion labels failed", nFallback, nFallbackFailed))
+			fmt.Printf("fallback: %d unsupported paths replayed natively, %d failing labels\n", nFallback, nFallbackFailed)
 		}
 	}
 
